@@ -151,8 +151,17 @@ package parallel
 //@   ensures result1 == nil && result0.Complete ==> result0.Successful != nil && *result0.Successful == satisfied(job, tasks)
 //@   ensures result1 == nil && !result0.Complete ==> result0.Successful == nil
 
+// ghost log of the completion verdicts asked for: which task list each was computed on, and what it said (C08: "no task is
+// created once the Job is complete" needs the verdict to be computed on a list that covers every task that exists)
+//@ ghost var sumN Int
+//@ ghost var sumTasks Array[Int][]execution.TaskRef
+//@ ghost var sumOK Array[Int]bool
+//@ ghost var sumComplete Array[Int]bool
 //@ extern func GetParallelTaskSummary
 //@   params job, tasks
+//@   modifies sumN, sumTasks, sumOK, sumComplete
+//@   ensures sumN == old(sumN) + 1 && sumTasks == store(old(sumTasks), old(sumN), tasks)
+//@        && sumOK == store(old(sumOK), old(sumN), result1 == nil) && sumComplete == store(old(sumComplete), old(sumN), result0.Complete)
 //@   ensures result1 == nil ==> result0.Complete == (satisfied(job, tasks) || impossible(job, tasks))
 //@   ensures result1 == nil && result0.Complete ==> result0.Successful != nil && *result0.Successful == satisfied(job, tasks)
 //@   ensures result1 == nil && !result0.Complete ==> result0.Successful == nil
